@@ -6,7 +6,9 @@ PROP = "C14"
 RULE = ("spec/JsonFlags.tla: the table number class x {UseNumber, UseBigInt, UseInt64, UseUint64} subsets -> dynamic type (96 rows, each with "
         "boundary literals, bare and inside arrays/objects) and the configuration lattice; spec/JsonTypes.tla shapes: every boundary value encoded "
         "under all 8 AppendFlags subsets (error iff default errors, valid JSON, same generic value, exact bytes of encoding/json's Encoder without "
-        "HTML escaping, permutation when unsorted), Encoder setters, and the default output parsed back under all 16 subsets of the copy / case flags")
+        "HTML escaping, permutation when unsorted), Encoder setters, and the default output parsed back under all 16 subsets of the copy / case flags; "
+        "spec/JsonString.tla: unit sequences (17 classes) with each unit at every offset of the encoder's 8-byte words, under all 8 subsets, byte for "
+        "byte against encoding/json's Encoder with the same EscapeHTML setting")
 ASSUME = ["TrustRawMessage subsets are only run on values whose default encoding succeeds", "generic values are compared after decoding with encoding/json and UseNumber"]
 
 
@@ -16,6 +18,12 @@ def extra(ck, vec):
     with open(vec, "a") as sink:
         g = vlib.must_hold(vlib.tlc("JsonFlags", "Gen_JsonFlags.cfg", workers=4, sink=sink), "flag tables")
     ck.add_mc(g, "Gen_JsonFlags")
+    # strings: every sequence of up to 2 (thorough 3) of the 17 string-unit classes of spec/JsonString.tla, each unit at every offset
+    # of the scanner's words, under every flag subset
+    with open(vec, "a") as sink:
+        gs = vlib.must_hold(vlib.tlc("JsonString", "Gen_JsonString.cfg", workers=8, sink=sink, tag="JsonString-c14", timeout=3000,
+                                     defines={"MaxUnits": 3 if ck.tier == "thorough" else 2}), "string units")
+    ck.add_mc(gs, "Gen_JsonString(for C14)")
 
 
 def run(tier, seed):
